@@ -8,9 +8,11 @@ def run(ck):
     import contracts_async  # noqa
     ck.assumptions += ['std Iterator::find_map visits elements in order and stops at the first Some (trusted)',
                        'every await completes; one request at a time']
-    ck.out_of_scope += ['request attributes seen by filters (string formatting), cidr_match vs CIDR containment (external cidr crate)',
+    ck.out_of_scope += ['request attributes seen by filters (string formatting)', 'CIDR containment arithmetic itself (external cidr crate, trusted; the check covers what cidr_match feeds it and returns)',
                         'filter evaluation itself (C08)', 'concurrent rule replacement (C15)']
+    ck.plans.append(dispatch.cidr_replay_plan)
     dispatch.spec_rule_evaluate(ck)
     dispatch.spec_first_match_closure(ck)
     dispatch.spec_process_request(ck)
+    dispatch.spec_cidr_match(ck)
     ck.post_filter = lambda o: o.label.startswith('C02/') or o.status in ('undecided', 'vacuous', 'inconclusive')
